@@ -9,6 +9,7 @@ CONSTANTS
   MaxOps = 5
   MaxRejected = 1
   ShapeAttempts = TRUE
+  ShapeTail = "none"
   Defect_TieBreakByPartialCmp = FALSE
   Defect_NoopModifyUnchecked = FALSE
   Defect_RecreateAccepted = FALSE
